@@ -188,6 +188,10 @@ def _adapt_closure_call(host, t, closure):
     method = t.get('method') or (t['func'].get('fn') or '').split('::')[-1]
     env_ty = closure['locals'][1]['ty'].strip() if len(closure['locals']) > 1 else ''
     passed = t['args'][0]['pl']['ty'].strip()
+    import re as _re
+    if _re.match(r'^[A-Za-z_][A-Za-z0-9_]*$', passed) and str(t.get('self_ty', '')).startswith('{closure:'):
+        # the argument is still printed as the helper's type parameter (`TFn`); the call's self type says which closure it is
+        passed = str(t['self_ty']).strip()
     want = {'call': '&', 'call_mut': '&mut ', 'call_once': '{'}.get(method)
     if want is None or not env_ty.startswith(want) or not passed.startswith(want) or (method == 'call' and env_ty.startswith('&mut ')):
         return None
@@ -442,6 +446,7 @@ def flatten(j):
         return j, []
     done = {}
     spliced = set()
+    closure_inlined = set()
 
     def flat(name, depth, stack):
         """Flattened copy of function `name`."""
@@ -474,6 +479,8 @@ def flatten(j):
                         t = adapted
                         b['term'] = t
                         callee = cname
+                        if b.get('inl'):
+                            closure_inlined.add(cname)
                 if callee is None or callee in stack or callee == name or depth >= MAX_DEPTH:
                     continue
                 if f.get('coroutine') and not t.get('closure_call'):
@@ -527,6 +534,23 @@ def flatten(j):
             h = inlined_in[h]
         return h
     inlined_in = dict((k, final_host(v)) for k, v in inlined_in.items())
+    # a closure that was handed to an inlined helper and called there (`queue.with_core(|core| ..)`) has been read inline in its host;
+    # if no remaining call receives it, it is not a body of its own any more
+    still_passed = set()
+    for nf in out_fns:
+        for b in nf['blocks']:
+            t = b['term']
+            if t and t['k'] == 'call':
+                for a in t['args']:
+                    if a['k'] in ('copy', 'move'):
+                        ty_ = str(a['pl'].get('ty', ''))
+                        if '{closure:' in ty_:
+                            for c_ in closure_inlined:
+                                if '{closure:%s}' % c_ in ty_:
+                                    still_passed.add(c_)
+    for nf in out_fns:
+        if nf['name'] in closure_inlined and nf['name'] not in still_passed and nf['kind'] == 'Closure':
+            nf['helper'] = True
     for nf in out_fns:
         if nf['name'] in helpers or nf['name'] in spliced:
             nf['helper'] = True
